@@ -181,7 +181,7 @@ def run(ctx):
                   + [["DirectedEdge", 0, c, 0] for c in range(1, 140)]})
     specs.append({"verts": ["Vertex", "Vertex"], "edges": [], "uni": []})
     specs.append({"verts": ["Vertex", "Vertex"], "edges": [["DirectedEdge", 0, 1, 0]], "uni": [1, 0]})
-    n_random = 1200 if quick else 8000
+    n_random = ctx.n(1200 if quick else 8000)
     k = 0
     for n in range(len(specs) + n_random):
         if n < len(specs):
